@@ -27,6 +27,15 @@ def _work(i):
     return r
 
 
+def _cpu_seconds(pid):
+    try:
+        with open("/proc/%d/stat" % pid) as f:
+            parts = f.read().rsplit(")", 1)[1].split()
+        return (int(parts[11]) + int(parts[12])) / float(os.sysconf("SC_CLK_TCK"))
+    except Exception:
+        return 0.0
+
+
 def _run_isolated(indices, procs, task_timeout):
     """fork one child per case (copy-on-write, a few ms); a child that dies (segfault in NumPy on a corrupted view, OOM kill) or hangs
     yields a 'crashed' result for that case instead of hanging the whole check"""
@@ -68,7 +77,8 @@ def _run_isolated(indices, procs, task_timeout):
                 results.append(_crashed(i, "worker process died (wait status %d%s) while running this case" % (status, ", signal %d" % (status & 0x7f) if status & 0x7f else "")))
         now = time.time()
         for fd, (pid, i, t0, buf) in list(running.items()):
-            if now - t0 > task_timeout:
+            # the budget is CPU time of the child (a loaded machine must not produce checker errors); wall time only guards against a sleeping hang
+            if _cpu_seconds(pid) > task_timeout or now - t0 > 20 * task_timeout:
                 try:
                     os.kill(pid, signal.SIGKILL)
                 except OSError:
@@ -76,7 +86,7 @@ def _run_isolated(indices, procs, task_timeout):
                 os.waitpid(pid, 0)
                 os.close(fd)
                 del running[fd]
-                results.append(_crashed(i, "worker exceeded %ds and was killed" % task_timeout))
+                results.append(_crashed(i, "worker exceeded %ds of CPU time (or 20x that in wall time) and was killed" % task_timeout))
     return results
 
 
